@@ -121,7 +121,7 @@ def run_rules(P, rule_ids, env=None):
         # its calls (and its parameters) by position, so what they conclude about it, or about
         # a function calling it, is not a reading of the code: not judged.
         changed = changed_signatures(P)
-        if changed and ctx.violations and rid not in NO_SIGNATURE_GUARD:
+        if ctx.violations and rid not in NO_SIGNATURE_GUARD:
             kept = []
             for v in ctx.violations:
                 fid = v.key[0] if isinstance(v.key, (tuple, list)) and v.key else None
@@ -133,7 +133,13 @@ def run_rules(P, rule_ids, env=None):
                     for c in f.calls:
                         rel.update(P.local_targets(c))
                 hit = sorted(rel & set(changed))
-                if hit:
+                ind = sorted(x for x in rel if x in P.fns and any(c.path.startswith("<indirect") for c in P.fns[x].calls)) if not hit else []
+                if ind:
+                    # what a call through a function pointer does is not read: a violation about the
+                    # function that makes it (or about its direct caller) is not a reading of the code
+                    if err is None:
+                        err = "%s: idiom not recognised: %s calls through a function pointer; %s is not judged" % (rid, ind[0], fid)
+                elif hit:
                     if err is None:
                         err = "%s: idiom not recognised: the signature of %s changed (%s): the rule reads its arguments by position and does not judge %s" % (rid, hit[0], changed[hit[0]], fid)
                 else:
